@@ -67,8 +67,8 @@ structure LinkInfo where
 structure Phys where
   size : Int
   pages : Array Page
-  infos : List (Int × LinkInfo)       -- serial ↦ info parsed from that link's three header packets
-  badhdr : List Int := []             -- Vorbis streams (good identification header) whose other headers are refused
+  infos : List (Int × LinkInfo)       -- offset of a logical stream's BOS page ↦ info parsed from its three header packets
+  badhdr : List Int := []             -- BOS offsets of Vorbis streams (good identification header) whose other headers are refused
   deriving Inhabited
 
 /-- `ogg_stream_state` as a queue -/
@@ -243,6 +243,7 @@ structure VF where
   os : OStream := {}
   vd : Option Dec := none          -- `vd`/`vb` initialised
   lapped : Bool := false           -- private_state.lapout_done of `vd`
+  hdrkey : Int := -1               -- BOS page offset of the stream whose headers were fetched last (key into `Phys.infos`)
   hs : Nat := 0
   source : Bool := false           -- `vf->datasource` set
   closes : Nat := 0                -- calls of the close callback so far
@@ -253,8 +254,8 @@ abbrev M := StateM VF
 def VF.cur (vf : VF) : Cur := { off := vf.offset, fill := vf.fill }
 def setCur (c : Cur) : M Unit := modify fun vf => { vf with offset := c.off, fill := c.fill }
 
-def infoOf (ph : Phys) (serial : Int) : LinkInfo :=
-  match ph.infos.find? (·.1 = serial) with
+def infoOf (ph : Phys) (key : Int) : LinkInfo :=
+  match ph.infos.find? (·.1 = key) with
   | some (_, li) => li
   | none => { channels := 0, rate := 0, bs0 := 0, bs1 := 0, modes := #[] }
 
@@ -304,8 +305,8 @@ def fetchHeaders (ph : Phys) (given : Option Page) : M (Int × List Int) := do
           let os1 := ({ serial := og.serial } : OStream).pagein og
           let (r, _, _, os2) := os1.packetout
           set { vf with os := os2 }
-          if r > 0 ∧ ((infoOf ph og.serial).modes.size > 0 ∨ ph.badhdr.contains og.serial) then
-            modify fun vf => { vf with ready := STREAMSET }
+          if r > 0 ∧ ((infoOf ph og.off).modes.size > 0 ∨ ph.badhdr.contains og.off) then
+            modify fun vf => { vf with ready := STREAMSET, hdrkey := og.off }
         let (r2, og2) ← getNextPage ph CHUNKSIZE
         if r2 < 0 then return (OV_ENOTVORBIS, og2, list1)
         let vf ← get
@@ -317,7 +318,7 @@ def fetchHeaders (ph : Phys) (given : Option Page) : M (Int × List Int) := do
   if rc ≠ 0 then return (← bail rc list)
   let vf ← get
   if vf.ready ≠ STREAMSET then return (← bail OV_ENOTVORBIS list)
-  if ph.badhdr.contains vf.os.serial then return (← bail OV_EBADHEADER list)
+  if ph.badhdr.contains vf.hdrkey then return (← bail OV_EBADHEADER list)
   -- the comment and set-up headers
   let rec rest (fuel : Nat) (i : Nat) (allbos : Bool) : M Int :=
     match fuel with
@@ -344,17 +345,19 @@ def fetchHeaders (ph : Phys) (given : Option Page) : M (Int × List Int) := do
   if rc2 ≠ 0 then return (← bail rc2 list)
   return (0, list)
 
-/-- `_initial_pcmoffset` -/
-def initialPcmoffset (ph : Phys) (li : LinkInfo) (serial : Int) : M Int := do
-  let rec go (fuel : Nat) (acc : Int) (lastblock : Int) : M Int :=
+/-- `_initial_pcmoffset`: the initial granule offset and the offset of the link's first audio page
+    (`dflt` when the link has none) -/
+def initialPcmoffset (ph : Phys) (li : LinkInfo) (serial : Int) (dflt : Int) : M (Int × Int) := do
+  let rec go (fuel : Nat) (acc : Int) (lastblock : Int) (dataoff : Option Int) : M (Int × Option Int) :=
     match fuel with
-    | 0 => return acc
+    | 0 => return (acc, dataoff)
     | f + 1 => do
         let (r, pg) ← getNextPage ph (-1)
-        if r < 0 then return acc
-        if pg.bos then return acc
-        if pg.serial ≠ serial then go f acc lastblock
+        if r < 0 then return (acc, dataoff)
+        if pg.bos then return (acc, dataoff)
+        if pg.serial ≠ serial then go f acc lastblock dataoff
         else
+          let dataoff1 := match dataoff with | some d => some d | none => some r
           -- the page goes through vf->os, so a sequence gap yields a hole (skipped) first
           let vf ← get
           let os1 := vf.os.pagein pg
@@ -363,10 +366,10 @@ def initialPcmoffset (ph : Phys) (li : LinkInfo) (serial : Int) : M Int := do
               let tb := packetBlocksize li p
               if tb ≥ 0 then ((if st.2 ≠ -1 then st.1 + (st.2 + tb) / 4 else st.1), tb) else st) (acc, lastblock)
           set { vf with os := { os1 with q := [], packetno := os1.packetno + os1.q.length } }
-          if pg.gran ≠ -1 then return pg.gran - acc1
-          else go f acc1 lb1
-  let a ← go (ph.pages.size + 1) 0 (-1)
-  return (if a < 0 then 0 else a)
+          if pg.gran ≠ -1 then return (pg.gran - acc1, dataoff1)
+          else go f acc1 lb1 dataoff1
+  let (a, d) ← go (ph.pages.size + 1) 0 (-1) none
+  return ((if a < 0 then 0 else a), d.getD dflt)
 
 /-- position of a serial number in `vf->serialnos` -/
 def linkOf (vf : VF) (serial : Int) : Option Nat :=
@@ -492,8 +495,8 @@ def fetchAndProcess (ph : Phys) (readp spanp : Bool) : Nat → M Int
         else
           let (r, _) ← fetchHeaders ph (some og)
           if r ≠ 0 then return r
-          modify fun vf => { vf with ready := STREAMSET, infos := #[infoOf ph vf.os.serial],
-                                     hs := if vf.hs = 1 ∧ (infoOf ph vf.os.serial).bs0 > 64 then 1 else 0,
+          modify fun vf => { vf with ready := STREAMSET, infos := #[infoOf ph vf.hdrkey],
+                                     hs := if vf.hs = 1 ∧ (infoOf ph vf.hdrkey).bs0 > 64 then 1 else 0,
                                      current_serialno := vf.os.serial, current_link := vf.current_link + 1 }
           -- (the page in hand went into the stream inside _fetch_headers: `continue`, not a second pagein)
           fetchAndProcess ph readp spanp fuel
@@ -959,7 +962,7 @@ def open1 (ph : Phys) (seekable : Bool) : M (Int × List Int) := do
   if rc < 0 then
     set ({ closes := closes } : VF)          -- datasource=NULL; ov_clear
     return (rc, [])
-  modify fun vf => { vf with infos := #[infoOf ph vf.os.serial], serialnos := #[vf.os.serial], current_serialno := vf.os.serial,
+  modify fun vf => { vf with infos := #[infoOf ph vf.hdrkey], serialnos := #[vf.os.serial], current_serialno := vf.os.serial,
                              offsets := #[0], dataoffsets := #[vf.offset], ready := PARTOPEN }
   return (0, bos)
 
@@ -1015,9 +1018,8 @@ def bisectForward (ph : Phys) : Nat → (begin_ searched end_ endgran endserial 
         if rc2 ≠ 0 then return rc2
         let vf1 ← get
         let nser := vf1.os.serial
-        let dataoffset := vf1.offset
-        let li := infoOf ph nser
-        let pcmoffset ← initialPcmoffset ph li nser
+        let li := infoOf ph vf1.hdrkey
+        let (pcmoffset, dataoffset) ← initialPcmoffset ph li nser vf1.offset
         let vf2 ← get
         let rc3 ← bisectForward ph fuel next vf2.offset end_ endgran endserial nlist (m + 1) nser
         if rc3 ≠ 0 then return rc3
@@ -1043,8 +1045,7 @@ def open2 (ph : Phys) (bosSerials : List Int) : M Int := do
     return rc
   let serial := vf.os.serial
   let li := vf.infos[0]!
-  let dataoffset := vf.dataoffsets[0]!
-  let pcmoffset ← initialPcmoffset ph li serial
+  let (pcmoffset, dataoffset) ← initialPcmoffset ph li serial vf.dataoffsets[0]!
   setCur (seekCur ph.size)
   modify fun vf => { vf with end_ := ph.size }
   let (e, endserial, endgran) ← getPrevPageSerial ph ph.size bosSerials serial (-1)
